@@ -609,6 +609,12 @@ func (e *SpecEnv) evalAddr(x ast.Expr) *SV {
 	case *ast.StarExpr:
 		return e.eval(n.X)
 	case *ast.Ident:
+		// an address-taken local: its cell
+		if v, ok := e.g.varAt["&"+n.Name]; ok {
+			if pv, ok := e.g.vals[v]; ok {
+				return &SV{V: pv, St: e.cur}
+			}
+		}
 		e.fail("cannot take the address of %s in a contract", n.Name)
 		return nil
 	}
@@ -880,6 +886,41 @@ func (e *SpecEnv) evalCall(n *ast.CallExpr) *SV {
 			return nil
 		}
 		return &SV{V: v, St: e.cur}
+	case "lastarg":
+		// lastarg(F, k): the k-th argument (0 = receiver) of the latest call of F that dominates this point
+		id, ok := n.Args[0].(*ast.Ident)
+		k := arg(1)
+		if !ok || k == nil || !k.V.L[0].IsLit() {
+			e.fail("lastarg(F, k) expects a function name and a literal index")
+			return nil
+		}
+		as, ok := e.g.lastArgs[id.Name]
+		i := int(k.V.L[0].I.Int64())
+		if !ok || i < 0 || i >= len(as) || as[i] == nil {
+			e.fail("lastarg(%s, %d): no dominating call with such an argument", id.Name, i)
+			return nil
+		}
+		return &SV{V: as[i], St: e.cur}
+	case "sqlparam", "sqlout", "sqltext":
+		// Statement text analysis, evaluated by the generator on the literal SQL text:
+		//   sqlparam(sql, "Col")  index of the '?' placeholder bound to column Col
+		//   sqlout(sql, "Col")    index of Col in the SELECT list
+		//   sqltext(sql, "Col")   1 if CREATE TABLE gives Col TEXT affinity (SQLite rules), else 0
+		// -1 if the column does not occur.
+		a, c := arg(0), arg(1)
+		if a == nil || c == nil {
+			return nil
+		}
+		if !a.V.L[0].IsLit() || !c.V.L[0].IsLit() {
+			e.fail("%s: the statement text is not a literal at this point", name)
+			return nil
+		}
+		r, err := sqlAnalyse(name, a.V.L[0].S, c.V.L[0].S)
+		if err != nil {
+			e.fail("%s: %v", name, err)
+			return nil
+		}
+		return svInt(Int(int64(r)))
 	case "implies__":
 		save := e.goal
 		e.goal = !save
